@@ -33,6 +33,7 @@ def run(patch, pids, tier='quick', keep=False):
                      if l.startswith(('VIOLATION', 'KNOWN-FINDING', 'MACHINERY', 'DIVERGENCE', '  clause')) or l.startswith(pid)]
             out[pid] = (r.returncode, lines)
             print('== %s on %s: exit %d' % (pid, os.path.basename(patch), r.returncode))
+            lines.sort(key=lambda l: 0 if l.startswith('VIOLATION') or l.startswith('  clause') else 1 if l.startswith(pid) else 2)
             for l in lines[:12]:
                 print('   ' + l[:400])
     finally:
